@@ -1,5 +1,7 @@
 import GqlVerif.Props.C02
 import GqlVerif.Proofs.C02Response
+import GqlVerif.Proofs.C02CompleteAll
+import GqlVerif.Proofs.C02CompleteFrontends
 open GqlVerif
 #print axioms C02.wellScoped_iff
 #print axioms C02.selected_types_used
@@ -34,3 +36,23 @@ open GqlVerif
 #print axioms C02.member_dup_witness
 #print axioms C02.keyword_enum_variable_mismatch
 #print axioms C02.object_variable_unresolved
+-- "supported inputs are accepted" (Proofs/C02Complete*.lean)
+#print axioms GqlVerif.C02Complete.resolve_complete
+#print axioms GqlVerif.C02Complete.resolve_complete_unrestricted_false
+#print axioms GqlVerif.C02Complete.schemaWf_needed
+#print axioms GqlVerif.C02Complete.condition_complete
+#print axioms GqlVerif.C02Complete.w_inline_untyped
+#print axioms GqlVerif.C02Complete.w_unknown_var_type
+#print axioms GqlVerif.C02Complete.w_iface_in_iface
+#print axioms GqlVerif.C02Complete.w_sub_two_same
+#print axioms GqlVerif.C02Gen.codegen_succeeds
+#print axioms GqlVerif.C02Gen.generate_succeeds
+#print axioms GqlVerif.C02Gen.resolve_queryWf
+#print axioms GqlVerif.C02Gen.varsGenOk_of_doc
+#print axioms GqlVerif.C02Gen.w_default_null
+#print axioms GqlVerif.C02Gen.w_oneof_nonnull
+#print axioms GqlVerif.C02All.supported_input_accepted_and_scoped
+#print axioms GqlVerif.C02Frontends.schemaWf_toSchema
+#print axioms GqlVerif.C02Frontends.schemaWfGen_toSchema
+#print axioms GqlVerif.C02Frontends.schemaWf_fromSdl
+#print axioms GqlVerif.C02Frontends.schemaWf_fromIntro
